@@ -29,8 +29,16 @@ var (
 	langPool = []string{"", "en", "de-CH", "x-<&>"}
 	textPool = []string{"", "plain", "a<b>&\"c'", "ünï ☃ 𝄞", " lead and trail ", "l1\nl2\r\n\tl3", "]]>", "&amp;",
 		" ", "\n\t", "\u00a0", "  \r\n ", "\u2003"}
-	jidPool  = []string{"", "example.net", "a@example.net", "b@example.com/res", "ü@example.org/r ☃", "c@example.net/a<&>'\"b"}
-	rawAddr  = []string{"", "example.net", "A@Example.NET/Res", "b@example.com/res", "@bad", "a@b@c", "ü@example.org/r", "x@example.com/"}
+	jidPool  = []string{"", "example.net", "a@example.net", "b@example.com/res", "ü@example.org/r ☃", "c@example.net/a<&>'\"b",
+		// round D: the edges of the parts.  A resourcepart is an opaque string: white space at its
+		// start or end (and nothing but white space) is legal and significant
+		"romeo@example.net/orchard ", "romeo@example.net/ lead", "example.net/ both ", "d@example.net/in  ner", "e@example.net/ ",
+		"f@example.net/r/s@t", "example.net/a@b"}
+	rawAddr  = []string{"", "example.net", "A@Example.NET/Res", "b@example.com/res", "@bad", "a@b@c", "ü@example.org/r", "x@example.com/",
+		// round D: padding around / inside an attribute value (nothing is trimmed by any decoder)
+		" ", "\n", "  \t", " a@example.net", "a@example.net ", "a@example.net/r ", "a@example.net/ r", "\ta@example.net/r\n", "example.net ", "a @example.net"}
+	// edgeAddrs: the addresses of jidPool whose parts have white space or separators at their edges
+	edgeAddrs = []string{"romeo@example.net/orchard ", "romeo@example.net/ lead", "example.net/ both ", "e@example.net/ ", "f@example.net/r/s@t", "example.net/a@b"}
 	spaces   = []string{"", "jabber:client", "jabber:server", "urn:other", "jabber:component:accept", "jabber:component:connect"}
 	iqTypes  = []string{"get", "set", "result", "error"}
 	msgTypes = []string{"normal", "chat", "error", "groupchat", "headline"}
@@ -234,7 +242,59 @@ func reader(t []xml.Token) xml.TokenReader {
 	return &sliceReader{t: t}
 }
 
+const (
+	nsStanzaErr = "urn:ietf:params:xml:ns:xmpp-stanzas"
+	nsStreamErr = "urn:ietf:params:xml:ns:xmpp-streams"
+)
+
+// confusableLocals: the local names an error decoder treats specially (the descriptive text, the
+// error element itself, conditions with and without content).  An application condition may
+// have any of these names in ITS OWN namespace and is then still the application condition.
+var confusableLocals = []string{"text", "error", "see-other-host", "conflict", "gone", "undefined-condition", "lang"}
+
+// confusableSpaces: namespaces an application element may live in (never the namespace of the
+// error it is put into: ownNS is left out by the callers).
+var confusableSpaces = []string{"urn:example:cluster", "jabber:client", "http://etherx.jabber.org/streams", nsStanzaErr, nsStreamErr, nsXML}
+
+// confusable builds an application element <local xmlns=space xml:lang=..>chars</local>.
+func confusable(space, local, lang, chars string) []xml.Token {
+	s := xml.StartElement{Name: xml.Name{Space: space, Local: local}}
+	if lang != "" {
+		s.Attr = []xml.Attr{{Name: xml.Name{Space: nsXML, Local: "lang"}, Value: lang}}
+	}
+	if chars == "" {
+		return []xml.Token{s, s.End()}
+	}
+	return []xml.Token{s, xml.CharData(chars), s.End()}
+}
+
+// confusablePayloads: every special local name x every namespace other than ownNS, with
+// character data (and half of them with xml:lang), alone and two in a row.
+func confusablePayloads(ownNS string) [][]xml.Token {
+	var out [][]xml.Token
+	for i, sp := range confusableSpaces {
+		if sp == ownNS {
+			continue
+		}
+		for k, lo := range confusableLocals {
+			lang := ""
+			if (i+k)%2 == 0 {
+				lang = "en"
+			}
+			out = append(out, confusable(sp, lo, lang, "node 7 is draining"))
+		}
+		out = append(out, append(confusable(sp, "text", "de", "eins"), confusable(sp, "text", "", "")...))
+	}
+	return out
+}
+
 func genPayload(r *common.Rand) []xml.Token {
+	if r.Chance(1, 8) {
+		// an application element named like something the error decoders look for, in a namespace
+		// of its own (never the stanza-errors / stream-errors `text`, which IS a descriptive text)
+		sp := pick(r, []string{"urn:example:cluster", "jabber:client", "http://etherx.jabber.org/streams"})
+		return confusable(sp, pick(r, confusableLocals), pick(r, langPool[:2]), pick(r, textPool))
+	}
 	switch r.Intn(6) {
 	case 4:
 		// an application element that (wrongly but legally) lives in the stanza-errors namespace,
@@ -1104,6 +1164,48 @@ func Run(r *common.Run) error {
 		}
 	}
 	r.Exhaustive = append(r.Exhaustive, "error replies printed and parsed again: kinds x every content namespace of the pool (none, client, server, component accept/connect, foreign) x addresses set or not")
+	r.Mark("case confusable application payloads")
+	for _, txt := range [][][2]string{nil, {{"en", "back in <5> minutes & \"counting\""}}, {{"", "t"}, {"de", "ü"}}} {
+		for _, p := range confusablePayloads(nsStreamErr) {
+			c.stErrCase(sterr{err: "system-shutdown", texts: txt}, p)
+			c.stErrCase(sterr{err: "see-other-host", content: "example.org:5222", texts: txt}, p)
+		}
+		for _, p := range confusablePayloads(nsStanzaErr) {
+			c.errCase(serr{by: "a@example.net", typ: "wait", cond: "resource-constraint", texts: txt}, p, rnd)
+		}
+	}
+	r.Exhaustive = append(r.Exhaustive, "application payloads named like what the error decoders look for (text, error, see-other-host, conflict, gone, undefined-condition, lang) x every namespace other than the error's own x no / one / two descriptive texts: stanza errors and stream errors")
+	r.Mark("case address edges")
+	for _, k := range []string{"iq", "message", "presence"} {
+		for _, a := range edgeAddrs {
+			for mask := 1; mask < 4; mask++ {
+				x := stz{kind: k, id: "e1", typ: map[string]string{"iq": "set", "message": "chat", "presence": "probe"}[k]}
+				if mask&1 != 0 {
+					x.to = mustJID(a).String()
+				}
+				if mask&2 != 0 {
+					x.from = mustJID(a).String()
+				}
+				c.stanzaCase(x, nil, rnd)
+			}
+		}
+	}
+	for _, a := range edgeAddrs {
+		c.errCase(serr{by: mustJID(a).String(), typ: "cancel", cond: "item-not-found"}, nil, rnd)
+	}
+	for _, k := range []string{"iq", "message", "presence"} {
+		for _, raw := range rawAddr {
+			for _, l := range []string{"to", "from"} {
+				c.newTok(k, xml.StartElement{Name: xml.Name{Space: "jabber:client", Local: k}, Attr: []xml.Attr{{Name: xml.Name{Local: "id"}, Value: "r1"}, {Name: xml.Name{Local: l}, Value: raw}}})
+			}
+		}
+	}
+	for _, raw := range rawAddr {
+		s := xml.StartElement{Name: xml.Name{Local: "error"}, Attr: []xml.Attr{{Name: xml.Name{Local: "type"}, Value: "cancel"}, {Name: xml.Name{Local: "by"}, Value: raw}}}
+		g := xml.StartElement{Name: xml.Name{Space: nsStanzaErr, Local: "gone"}}
+		c.sdecLine([]xml.Token{s, g, g.End(), s.End()})
+	}
+	r.Exhaustive = append(r.Exhaustive, "addresses with white space / separators at the edges of the resourcepart in to, from (every stanza kind, both encoding paths, both decoders) and by (stanza errors); every raw attribute value of the pool (padding before / after / only white space) through NewIQ|NewMessage|NewPresence, the reflection decoder and the error decoder")
 	r.Mark("case several readers alive")
 	c.multiAll(rnd, r.Pick(1, 8))
 	r.Exhaustive = append(r.Exhaustive, "every function that returns a token reader x k = 2..4 readers made before any is read x every drain order")
